@@ -252,6 +252,16 @@ class ConcHarness:
                     if kind == "post":
                         r = await pool.request("POST", url, content=b"data-" + tok.encode(), extensions=dict(ext))
                         return (r.status, r.content)
+                    if kind == "ipost":
+                        # body given as a one-shot async iterator (cannot be replayed by the caller's object itself)
+                        payload = b"iter-" + tok.encode()
+                        uploads[tok] = payload
+
+                        async def agen():
+                            yield payload[:3]
+                            yield payload[3:]
+                        r = await pool.request("POST", url, headers=[("Content-Length", str(len(payload)))], content=agen(), extensions=dict(ext))
+                        return (r.status, r.content)
                     if kind.startswith("up"):
                         n = int(kind[2:])
                         payload = (tok.encode() * (n // len(tok) + 1))[:n]
@@ -469,6 +479,10 @@ class ConcHarness:
         for hc in topo.all_h2_conns():
             for s_ in hc.streams.values():
                 tk = (s_.token or b"").decode()
+                refused_ = hc.goaway_sent is not None and s_.id > hc.goaway_sent[0]
+                if tk in self._uploads and s_.end_stream and not refused_ and bytes(s_.body) != self._uploads[tk]:
+                    viol("C03", "transmission-body", f"a transmission of request {tk} (stream {s_.id} on T{hc.tr.id}) carried body {bytes(s_.body)!r}, the caller's body is {self._uploads[tk]!r}",
+                         resend=sum(1 for hc2 in topo.all_h2_conns() for x_ in hc2.streams.values() if x_.token == s_.token) > 1)
                 if tk in self._uploads and s_.end_stream and bytes(s_.body) != self._uploads[tk]:
                     viol("C13", "upload-body", f"stream {s_.id} (token {tk}) delivered {len(s_.body)} bytes {bytes(s_.body)[:40]!r}, the caller sent {len(self._uploads[tk])} bytes")
                 if tk in self._uploads and s_.end_count > 1:
@@ -686,6 +700,14 @@ def scenarios(pid, tier):
                 out.append(S(ct, [W, "req:a", "req:a", "req:a"], max_connections=1, h2script={"frag": 2}, early=False))
                 out.append(S(ct, [W, "req:a", "req:a", "req:a", "req:a"], max_connections=1, h2cfg={"max_streams": 3}, h2script={"settings": [1], "rst": 1}, early=False))
                 out.append(S(ct, [W, "req:a", "req:a"], max_connections=1, h2script={"frag": 2}, early=True))
+    if pid == "C03":
+        # transparent re-sends: a stream refused by GOAWAY is sent again on another connection; both transmissions are decoded by the peer
+        for ct in (["h2pk"] if quick else ["h2pk", "h2alpn"]):
+            out.append(S(ct, ["req:a:w", "post:a", "req:a"], max_connections=2, h2script={"goaway": [1, 3]}, early=False))
+            out.append(S(ct, ["req:a:w", "ipost:a", "req:a"], max_connections=2, h2script={"goaway": [1, 3]}, early=False))
+            out.append(S(ct, ["req:a:w", "req:a", "ipost:a"], max_connections=2, h2script={"goaway": [1, 3]}, early=False))
+        # requests racing onto a connection that turns out to be HTTP/1.1
+        out.append(S("h2exp11", ["ipost:a", "ipost:a"], max_connections=2))
     if pid == "C02":
         # HTTP/2: DATA of one stream arriving in reads made on behalf of another (multiplexed responses in two
         # fragments each; a download's DATA arriving while an upload waits for flow-control credit)
